@@ -138,6 +138,8 @@ def main():
         r["inconclusive_checks"] = incon
         r["ok"] = ok
         print("%-22s %-9s %-14s %s%s" % (r["name"], r["kind"], verdict, ",".join(fired), ("   inconclusive: " + ",".join(incon)) if incon else ""))
+    if os.environ.get("KM_JSON"):
+        json.dump({"generated": time.strftime("%Y-%m-%dT%H:%M:%SZ", time.gmtime()), "props": props, "results": results}, open(os.environ["KM_JSON"], "w"), indent=1)
     if only is None and props == ALL:
         json.dump({"generated": time.strftime("%Y-%m-%dT%H:%M:%SZ", time.gmtime()), "repo_head": subprocess.check_output(["git", "-C", "/repo", "rev-parse", "--short", "HEAD"], text=True).strip(), "results": results},
                   open(os.path.join(VERIF, "mutants", "killmatrix.json"), "w"), indent=1)
